@@ -108,14 +108,23 @@ ASSUMPTIONS = [
     "procedure outside them (ctfTRu_no_internal_error_partial: validated input, no self-intervened variable together with a "
     "valueless variable, plain event variables as built by the public wrapper, every domain graph keeps the target's "
     "bidirected edges between non-policy variables and has no bidirected edge at a selection node => answer or FAIL, no "
-    "error); for Algorithm 3 PROVED outside its crash classes (ctfTR_no_internal_error_partial: validated input, plain query "
-    "variables, DomainsAgree, and "
-    "three decidable predicates on the input: OutcomesFound = every outcome is found in the ancestral components under its own "
-    "name, DstarOneWorld = D* names each vertex in one world, OutcomeNotCondition = no outcome shares its vertex with a "
-    "condition; the facts about Algorithm 2's expression Q - never Zero(), only graph vertices and variables of the domain "
-    "distributions - are proved: ctfTR_q_good). FALSE without OutcomesFound (known findings; Lean witness a3Miss); OPEN "
-    "whether DstarOneWorld / OutcomeNotCondition are needed (no exception was ever observed with OutcomesFound true); the "
-    "oracle reports every exception after validation",
+    "error); for Algorithm 3 PROVED outside ONE crash class, for domain distributions over plain variables "
+    "(ctfTR_no_internal_error_plain_partial: validated input, plain query variables, DomainsAgree, PopsPlain = the children of "
+    "every domain's PopulationProbability are plain Variables, as in the PP[pi](V) every case of this harness carries, and the "
+    "decidable predicate OutcomesFound = every outcome is found in the ancestral components under its own name; the facts "
+    "about Algorithm 2's expression Q - never Zero(), only graph vertices and variables of the domain distributions, and it "
+    "mentions the vertex of every found outcome - are proved: ctfTR_q_good, qCovers_of_popsPlain). FALSE without OutcomesFound "
+    "(known findings crash:ctfTR-derived-event-rejected / crash:ctfTR-final-check; Lean witness a3Miss; the harness's "
+    "syntactic miss_all / miss_some is exactly the complement of OutcomesFound, cross-checked against the model by "
+    "tools/c09_errsearch.py --sig). The two further classes of ctfTR_no_internal_error_partial are DECIDED: DstarOneWorld "
+    "(D* names each vertex in one world) is not needed for any distributions (ctfTR_no_internal_error_found_partial: a vertex "
+    "in two worlds is merged by the conversion to ctf-factor form or makes Algorithm 2 answer FAIL, so an answer binds every "
+    "vertex once: ctfTR_simplified_binds_once; in particular CtfTr.finalChecksOrderSensitive is false on every answer); "
+    "OutcomeNotCondition (no outcome shares its vertex with a condition) IS needed for arbitrary domain distributions - a "
+    "distribution that lists a counterfactual variable next to its vertex, PP[pi](X, Y, Y_x), makes P*(Y = y | Y = y') raise "
+    "KeyError from check 5 of the output check after both validators accepted the input (Lean witness a3Shared, confirmed on "
+    "the Python by tools/c09_popworld_witness.py; open finding crash:ctfTR-final-check:population-world, NOT reachable by "
+    "this harness's case format) - and is not needed under PopsPlain; the oracle reports every exception after validation",
     "failures on inputs with the syntactic signature of an open finding AND its kind of outcome (wrong value / wrong zero / "
     "exception class at a named check) are attributed to that finding by class key (17 keys; signature computed on the "
     "minimised query with the harness's own graph code); a different defect that only shows on such inputs with the same "
